@@ -18,6 +18,9 @@ SWAP-0   a parameter is not handed into another parameter's slot: where a functi
          callee parameter with a different name, and the callee also has a parameter called `p`, two arguments were exchanged
          (`play_with_config(cfg, start_time, start_step, ..., start_running)`).  Evaluated over the analysed functions and every function
          of the property's anchor files; no call of the pinned tree has that shape (1574 bound arguments examined).
+DROP-0   a parameter is not swallowed by a pass-through: where a function hands some of its own parameters to a callee (resolved by name, one
+         signature in mpf/) that also has a parameter `p`, the function's own `p` - if it is used nowhere else in the function - is handed on
+         too (`replace_handler(event, handler, priority)` calling `add_handler(event, handler)` registers at the default priority).
 NAME-0   delay names agree: a delay name (string constant) that a class cancels, checks or runs now is a name the class arms
          somewhere (its own methods or inherited ones).  A cancel under a name nobody arms cancels nothing.
 """
@@ -354,6 +357,94 @@ def params_not_cross_bound(chk):
                    detail="`%s` of %s is passed as `%s` of %s, which also has a parameter `%s`: two arguments exchanged" % (
                        own, qual, slot, src(c.func)[-40:], own), construct=ident, text="parameter %s lands in slot %s of %s" % (own, slot, src(c.func)[-30:]))
     chk.ob("SWAP-0", "no parameter of the analysed / anchored functions lands in another parameter's slot (%d functions)" % n, True, "mpf:1", nontrivial=False)
+
+
+_POS_DROP = """
+class A:
+    def add_handler(self, event, handler, priority=1):
+        return 1
+
+    def replace_handler(self, event, handler, priority=1):
+        return self.add_handler(event, handler)
+"""
+
+
+def _dropped(fn_node, sig_of):
+    fp, fk = _fn_params(fn_node)
+    own = set(fp) | set(fk)
+    out = []
+    if not own:
+        return out
+    used = {}
+    for x in ast.walk(fn_node):
+        if isinstance(x, ast.Name):
+            used[x.id] = used.get(x.id, 0) + 1
+    for c in ast.walk(fn_node):
+        if not isinstance(c, ast.Call):
+            continue
+        nm = c.func.attr if isinstance(c.func, ast.Attribute) else (c.func.id if isinstance(c.func, ast.Name) else None)
+        sg = sig_of(nm) if nm else None
+        if not sg:
+            continue
+        cp, ck = sg
+        own_kw = fn_node.args.kwarg.arg if fn_node.args.kwarg else None
+        if any(isinstance(a, ast.Starred) for a in c.args) or any(k.arg is None and not (isinstance(k.value, ast.Name) and k.value.id == own_kw) for k in c.keywords):
+            continue        # (**own_kwargs cannot carry one of the function's named parameters)
+        bound = set(cp[:len(c.args)]) | {k.arg for k in c.keywords if k.arg}
+        passed = [a.id for a in c.args if isinstance(a, ast.Name) and a.id in own] + \
+                 [k.value.id for k in c.keywords if isinstance(k.value, ast.Name) and k.value.id in own]
+        if not passed:
+            continue
+        for p in sorted(own):
+            if p in (set(cp) | set(ck)) and p not in bound and used.get(p, 0) == 0:
+                out.append((c, p))
+    return out
+
+
+def params_not_dropped(chk):
+    import json
+    import os
+    pos = ast.parse(_POS_DROP).body[0]
+    if len(_dropped(pos.body[1], {"add_handler": (("event", "handler", "priority"), ())}.get)) != 1:
+        chk.pending_errors.append("DROP-0 detector does not match its positive example")
+    repo = chk.repo
+    sigs = getattr(repo, "_sig2_by_name", None)
+    if sigs is None:
+        by = {}
+        for rel, m in repo.modules.items():
+            if not rel.startswith("mpf/") or "/tests/" in rel:
+                continue
+            for f in m.all_funcs():
+                a, b = _fn_params(f.node)
+                by.setdefault(f.name, set()).add((tuple(a), tuple(b)))
+        sigs = {k: next(iter(v)) for k, v in by.items() if len(v) == 1}
+        try:
+            repo._sig2_by_name = sigs
+        except Exception:   # noqa
+            pass
+    idents = set(chk.funcs_analysed)
+    try:
+        here = os.path.dirname(os.path.dirname(os.path.abspath(__file__)))
+        for ln in open(os.path.join(here, "properties.jsonl")):
+            d = json.loads(ln)
+            if d["id"] == chk.prop:
+                for rel in d["anchors"]["files"]:
+                    if rel in repo.modules:
+                        idents |= {f.ident for f in repo.modules[rel].all_funcs()}
+    except OSError:
+        pass
+    n = 0
+    for ident in sorted(idents):
+        rel, qual = ident.split("::", 1)
+        f = repo.try_func(rel, qual)
+        if f is None:
+            continue
+        n += 1
+        for c, p_ in _dropped(f.node, sigs.get):
+            chk.ob("DROP-0", "a pass-through hands on every parameter its callee also takes", False, "%s:%d" % (rel, c.lineno),
+                   detail="`%s` of %s is accepted, used nowhere, and not handed to %s (which has a parameter `%s`): the callee's default is used" % (
+                       p_, qual, src(c.func)[-40:], p_), construct=ident, text="parameter %s swallowed before %s" % (p_, src(c.func)[-30:]))
+    chk.ob("DROP-0", "no parameter of the analysed / anchored functions is swallowed by a pass-through (%d functions)" % n, True, "mpf:1", nontrivial=False)
 
 
 _ARM = {"add", "reset", "add_if_doesnt_exist"}
